@@ -11,7 +11,8 @@ from vlib import harness
 
 ID = "C06"
 LEVEL = "exploration"
-TECHNIQUE = "runtime monitor: generated kernel stat/status/task records under the real parsers, ground-truth oracle"
+TECHNIQUE = ("runtime monitor: generated kernel stat/status/task records under the real parsers, ground-truth oracle; live kernel: "
+             "real children renamed through prctl() to hostile names, with named threads, vs an independent reading of /proc")
 RULE = ("one case = one simulated process (1-8 threads) with generated comm bytes, state letter, counters, "
         "tty number, record length; every getter of the statement is compared with the generator's numbers. "
         "non-trivial = comm or a thread name contains ')' '(' space, newline, tab, backslash or a non-UTF-8 "
@@ -328,11 +329,110 @@ def run_case(case, acc):
     acc.case(case, nontrivial(case), viols)
 
 
+# ---- live kernel: real children with hostile names (prctl) and named threads ---------------------------------------
+
+LIVE_CHILD = r"""
+import ctypes, os, sys, threading, time
+libc = ctypes.CDLL(None, use_errno=True)
+name = bytes.fromhex(sys.argv[1])
+libc.prctl(15, ctypes.c_char_p(name), 0, 0, 0)            # PR_SET_NAME: the main thread's comm = the process name
+tnames = [bytes.fromhex(x) for x in sys.argv[2:]]
+ready = threading.Barrier(len(tnames) + 1)
+def th(n):
+    with open("/proc/self/task/%d/comm" % threading.get_native_id(), "wb") as f:
+        f.write(n)
+    ready.wait()
+    x = 0
+    t0 = time.time()
+    while time.time() - t0 < 0.05:
+        x += 1
+    time.sleep(1000)
+for n in tnames:
+    threading.Thread(target=th, args=(n,), daemon=True).start()
+ready.wait()
+print("up", flush=True)
+time.sleep(1000)
+"""
+
+LIVE_NAMES = [b"plain", b"a) R 1 (b", b"Uid:\t0\t0\t0", b"Threads:\t99", b"x) S 0 0 0 0", b"sp ace", b"(sd-pam)", b"\xff\xfe\xfd",
+              b"fifteen_chars_x", b"Gid:\t0\t0\t0\t0", b"nl\nin name", b"Tgid:\t1"]
+
+
+def run_live(shard, acc):
+    import subprocess
+    import sys
+    ps = setup()["ps"]
+    ps.PROCFS_PATH = "/proc"
+    envp = {k: v for k, v in os.environ.items() if k != "LD_PRELOAD"}
+    clk = os.sysconf("SC_CLK_TCK")
+    viols = []
+    for n, name in enumerate(LIVE_NAMES):
+        tnames = [LIVE_NAMES[(n + 1) % len(LIVE_NAMES)], LIVE_NAMES[(n + 5) % len(LIVE_NAMES)][:15], b"wk) Z 9 (x"]
+        child = subprocess.Popen([sys.executable, "-S", "-c", LIVE_CHILD, name.hex()] + [t.hex() for t in tnames], env=envp,
+                                 stdout=subprocess.PIPE, stdin=subprocess.DEVNULL)
+        try:
+            if not child.stdout.readline():
+                acc.inconclusive = "live child did not start"
+                return
+            pid = child.pid
+            # independent reading: fields after the LAST ')' of stat; status lines anchored at line start
+            with open(f"/proc/{pid}/stat", "rb") as f:
+                st = f.read()
+            comm = st[st.index(b"(") + 1:st.rindex(b")")]
+            fields = st[st.rindex(b")") + 2:].split()
+            with open(f"/proc/{pid}/status", "rb") as f:
+                status = {}
+                for ln in f.read().split(b"\n")[1:]:          # the first line is Name: (may contain anything but a newline)
+                    if b":" in ln:
+                        k, v = ln.split(b":", 1)
+                        status.setdefault(k, v.strip())
+            tids = sorted(int(t) for t in os.listdir(f"/proc/{pid}/task"))
+            pr = ps.Process(pid)
+            want = dict(name=os.fsdecode(comm), ppid=int(fields[1]), num_threads=len(tids),
+                        uids=tuple(int(x) for x in status[b"Uid"].split()[:3]), gids=tuple(int(x) for x in status[b"Gid"].split()[:3]),
+                        cpu_num=None, terminal=None)
+            got = dict(name=pr.name(), ppid=pr.ppid(), num_threads=pr.num_threads(), uids=tuple(pr.uids()), gids=tuple(pr.gids()))
+            for k in got:
+                acc.count("getter_comparisons")
+                acc.count("live_getter_comparisons")
+                if k == "name" and len(comm) == 15:
+                    continue                    # C12's completion rule may extend a 15-byte name
+                if got[k] != want[k]:
+                    feat = "status_regex_matches_Name_line" if k in ("uids", "gids", "num_threads") else "live"
+                    viols.append((f"{k}_wrong:{feat}", f"live child named {name!r}: {k} got {got[k]!r} want {want[k]!r}"))
+            acc.count("getter_comparisons")
+            if pr.status() not in (ps.STATUS_SLEEPING, ps.STATUS_RUNNING, ps.STATUS_DISK_SLEEP):
+                viols.append(("status_wrong:live", f"{name!r}: {pr.status()!r}"))
+            ct = pr.create_time()
+            with open("/proc/stat") as f:
+                btime = int([ln for ln in f if ln.startswith("btime")][0].split()[1])
+            if abs(ct - (btime + int(fields[19]) / clk)) > 1.0:
+                viols.append(("create_time_wrong:live", f"{name!r}: {ct} vs {btime + int(fields[19]) / clk}"))
+            ths = pr.threads()
+            acc.count("thread_rows_compared", len(ths))
+            if sorted(t.id for t in ths) != tids:
+                viols.append(("threads_wrong:rparen_in_thread_name", f"{name!r}: ids {sorted(t.id for t in ths)} want {tids}"))
+            for t in ths:
+                with open(f"/proc/{pid}/task/{t.id}/stat", "rb") as f:
+                    ts = f.read()
+                tf = ts[ts.rindex(b")") + 2:].split()
+                if abs(t.user_time - int(tf[11]) / clk) > 0.021 or abs(t.system_time - int(tf[12]) / clk) > 0.021:
+                    viols.append(("threads_wrong:rparen_in_thread_name", f"{name!r}: thread {t.id} times ({t.user_time}, {t.system_time}) "
+                                                                         f"kernel ({int(tf[11]) / clk}, {int(tf[12]) / clk})"))
+            acc.count("live_children_checked")
+        finally:
+            child.kill()
+            child.wait()
+            child.stdout.close()
+    acc.case(dict(kind="live"), True, viols)
+
+
 def plan(tier, seed):
     n = 24000 if tier == "quick" else 1_200_000
     shards = [dict(kind="exh")]
     for s, c in harness.split_range(n, 16 if tier == "quick" else 64):
         shards.append(dict(kind="gen", seed=seed, start=s, count=c))
+    shards.append(dict(kind="live"))
     return shards
 
 
@@ -347,7 +447,12 @@ def run_shard(shard):
         for i in range(shard["start"], shard["start"] + shard["count"]):
             rng = harness.rng_for(shard["seed"], "c06", i)
             run_case(gen_case(rng, env["ttys"]), acc)
+    elif shard["kind"] == "live":
+        run_live(shard, acc)
     elif shard["kind"] == "cases":
         for case in shard["cases"]:
-            run_case(case, acc)
+            if case.get("kind") == "live":
+                run_live({}, acc)
+            else:
+                run_case(case, acc)
     return acc.result()
